@@ -8,11 +8,29 @@ TRUST=("Trusted base: the govc VC generator itself (SSA->SMT translation, memory
        "stdlib contracts listed in the evidence (encoding/binary, io.ReaderAt, errors/fmt, math bit casts, crc32 uninterpreted); slices/strings bounded by 2^40 and slice arguments not partially overlapping. "
        "Obligations listed in /verif/unclaimed.json are NOT proved and not counted; known findings are listed in /verif/known_findings.json. ")
 claimed={
+ "C03":{"text":"Proof, on the real LocalHeap and SymbolTableNode code, of exact error conditions (string does not fit / node full), 'an error changes nothing', and the success postconditions (returned offset equals the old used length, bytes and terminator stored, earlier bytes and entries unchanged), for all inputs and histories (representation invariants lhWF / stWF preserved).",
+        "note":TRUST+"Only the local-heap / symbol-table-node kernels of group linking are decided. Uniqueness of names within a group is NOT provable of this code (nothing checks it) and is not claimed; the tree after reopen, dense groups, link kinds and linkToParent's write ordering are not decided.",
+        "technique":"contract-based deductive verification: representation invariants and pre/postconditions in mathematical-integer mode, SMT","ref":"I.3 / 3 C03"},
+ "C08":{"text":"Proof of the shuffle filter's element-wise mapping result[b*n+e] == data[e*s+b] and of its inverse (nested-loop invariants), length preservation and the exact error condition; Fletcher-32 filter appends 4 bytes, keeps the payload, Remove returns exactly the prefix or an error; round-trip lemmas; single-byte-alteration detection proved for payloads up to 4 bytes (bounded, labelled).",
+        "note":TRUST+"Deflate/bzip2/LZF losslessness, reader/writer container agreement and the pipeline message are not decided. Fletcher-32 corruption detection is BOUNDED (payload <= 4 bytes, all positions) and not counted as a proof of the unbounded statement.",
+        "technique":"contract-based deductive verification: loop invariants + lemma blocks over the real filter code, int mode, SMT; one bounded lemma","ref":"I.3 / 3 C08"},
+ "C12":{"text":"Proof of the global-heap collection builder invariant (used+free == size, 8-alignment, indices 1..n distinct), of addObject / createNewHeap (free space >= requested for every admissible request) / WriteToGlobalHeap (returned reference designates the stored bytes, error leaves the writer unchanged), of the collection header and first-object encoding, and of the heap-reference encode/parse lemma.",
+        "note":TRUST+"Element-wise read-back through the dataset API, offsets of objects beyond the first (needs a sum over heap memory) and vlen datatype recognition are not decided; 2 obligations are known findings (free-space object size), 9 are unclaimed tool limits.",
+        "technique":"contract-based deductive verification: builder invariant, pre/postconditions, frames, one lemma; int mode, SMT","ref":"I.3 / 3 C12"},
+ "C15":{"text":"Proof, on the real direct-root WritableFractalHeap, of the representation invariant, exact error conditions, 'an error changes nothing', byte-wise postconditions of insert / get / overwrite / delete with frames (other objects' bytes untouched, counters updated), and lemmas insert-then-get, insert-keeps-others (new range disjoint from earlier ids), overwrite-then-get, delete-keeps-others.",
+        "note":TRUST+"Write-out/load-back, indirect-root heaps and liveness of ids (needs ghost state) are not decided. 6 obligations are known findings (capacity ignores prefix/checksum, 2-byte offsets vs large blocks, delete of non-live ids, transition on non-fitting insert). Inserts require the data slice not to alias the heap's own spare capacity (documented precondition).",
+        "technique":"contract-based deductive verification: class invariant + pre/postconditions + assigns + lemma blocks, int mode with discharged no-overflow obligations, SMT","ref":"I.3 / 3 C15"},
+ "C17":{"text":"Fail-stop proof for the ~170 reader functions: one ghost flag per call site that can fail (non-nil error, or short ReadAt); at every return of a function with an error result a raised flag obliges a non-nil error, and no raised flag may be carried around a loop back edge. Because each site is verified against the I/O contract in isolation, one obligation covers the failure of the k-th read for every k and every truncation length.",
+        "note":TRUST+"Decides 'a failure is never swallowed' (sufficient, not necessary: 11 sites triaged by hand as harmless are listed as unclaimed). 22 obligations are known findings, each demonstrated on the real code with a truncated/corrupted file. Not decided: use of buffer bytes beyond the count actually read, write-side I/O, equality with the intact-file answer.",
+        "technique":"contract-based deductive verification: ghost-state fail-stop obligations over go/ssa against the io.ReaderAt contract, SMT","ref":"I.1 / 3 C17"},
+ "C19":{"text":"Selector: proof that SelectConfig returns a mode permitted by the allowed-modes list or the 'none' fallback, returns 'none' whenever confidence is below the configured minimum, reports confidence in [0,1] (interface contract proved for RuleBasedStrategy), preserves its state invariant, and changes mode only as the fallback of a failed gate or as a freshly committed decision; Validate is sound and complete; ratios in [0,1]. Configuration independence: the B-tree rebalancing entry points are proved to write only rebalancing state (assigns clauses) and the three delete variants have the same postcondition on records and header.",
+        "note":TRUST+"The time-based half of the stability rule is not expressible (time.Time values are unconstrained); content identity across whole histories is argued from the frames, not proved end to end; incremental/smart background rebalancing is not covered.",
+        "technique":"contract-based deductive verification: pre/postconditions incl. floating point (SMT FP theory), interface-method contract, frame (assigns) obligations","ref":"I.3 / 3 C19"},
  "C07":{"text":"Proof, per function, of the absence of run-time panics of the kinds index/slice out of range, division by zero, negative or oversized make, failing type assertion, nil-map write and explicit panic, for the ~170 functions reachable from the read API (computed from the SSA call graph on each run). Inputs are unconstrained (arbitrary bytes, arbitrary ReadAt results); loops are cut with automatically inferred, solver-checked invariants. A change that removes or weakens a bounds check turns a discharged obligation into a failing one.",
         "note":TRUST+"Decided only for the obligations that discharge on the unchanged tree (about three quarters of those generated); the remainder are listed as unclaimed and a defect there is not detected. Termination, stack depth and memory proportional to file size are not decided by this check.",
         "technique":"contract-based deductive verification: weakest-precondition obligations over go/ssa (bit-vector semantics), Houdini loop invariants, SMT portfolio","ref":"3 C07"},
- "C09":{"text":"Proof that the shared hyperslab validators accept a selection iff every dimension satisfies count>0 and start+(count-1)*stride<dim computed without wrap-around (loop invariant + postcondition on the real ValidateHyperslabBounds, SafeMultiply, CheckMultiplyOverflow).",
-        "note":TRUST+"Only the validation half of the property is decided; element-wise agreement of ReadSlice/ReadHyperslab with the full read and chunk-iterator tiling are not decided. mulOverflows is specified by the division characterisation (equivalence with the double-width product solver-checked at 8/16 bits only).",
+ "C09":{"text":"Proof that hyperslab validation is sound and complete: the shared validators and validateHyperslabSelection/Bounds/DimensionBounds accept a selection iff ranks agree and every dimension satisfies count,stride,block>0 and start+(count-1)*stride+block<=dim computed WITHOUT wrap-around; ReadSlice bounds; closed-form row-major linear offset (rank<=3) and output size; contiguity test implies a single gap-free run; first/last overlapping chunk per dimension; chunk-iterator piece geometry start=c*chunk, count=min(chunk,dims-start).",
+        "note":TRUST+"Element-wise agreement of the recursive extractors with the full read and exactly-once chunk visiting are not decided (a seeded change in extractChunkPortionRecursive is not caught). mulOverflows is specified by the division characterisation (equivalence with the double-width product solver-checked at 8/16 bits only).",
         "technique":"contract-based deductive verification: pre/postconditions and quantified loop invariant on the real functions, SMT","ref":"3 C09"},
  "C14":{"text":"Proof that insert, lookup and delete on the real WritableBTreeV2 preserve the representation invariant (records sorted by hash, leaf image aliases the record slice, header counts equal the number of records, capacity bound) and implement the map-like postconditions (capacity refusal leaves the index unchanged; inserted record present; deleted record removed, others shifted), for all inputs and all histories (invariant induction).",
         "note":TRUST+"Lookup is specified by name hash (the index stores hashes only): 'distinct names with equal hashes are not confused' is not provable of this design and is not claimed; equality of jenkinsHash with lookup3 and the write/load round trip are not yet decided. jenkinsHash is abstracted as an uninterpreted function after a syntactic purity check.",
@@ -24,20 +42,14 @@ claimed={
 na={
  "C01":"not built yet: needs element encoder/decoder, chunk geometry and layout contracts (planned)",
  "C02":"not built yet: attribute map view over compact/dense storage needs heap/index interface contracts (planned)",
- "C03":"not built yet: local heap / symbol table node contracts (planned)",
  "C04":"not built yet: allocator invariant and extent obligations (planned)",
  "C05":"not built yet: per-structure encoding/size/checksum postconditions (planned)",
  "C06":"the deciding oracle is the reference library's h5dump output for a corpus of files; no contract over the library's functions can state it (differential corpus comparison is a different family)",
- "C08":"not built yet: shuffle/fletcher32/pipeline message contracts (planned)",
  "C10":"not built yet: allocator seeding and no-op session frame (planned)",
  "C11":"not built yet as a registered check: round-trip lemmas exist for link-info only so far",
- "C12":"not built yet: global heap builder invariant (planned)",
  "C13":"not built yet: Resize validation contract (planned)",
- "C15":"not built yet: fractal heap invariant (planned)",
  "C16":"not built yet: error-atomicity postconditions exist for B-tree v2 only (planned)",
- "C17":"not built yet: fail-stop / defined-bytes obligation kinds (planned)",
  "C18":"schedule and liveness statements (all interleavings, stop returns, no goroutine outlives Close) have no contract-level formulation; the data-race half needs guarded_by obligations that are not built yet",
- "C19":"not built yet: selector contracts and rebalancing frames (planned)",
 }
 checks=[]
 for pid in ids:
